@@ -965,6 +965,7 @@ package runtime
 //@   assert_before_call Metacall: Truth(v)
 //@   assert_before_call Metacall: $obj == v
 //@   assert_before_call Metacall: len($args) == 2
+//@   ensures h >= 0 ==> t.closeStack.size() <= h   // whatever happens to individual handlers (an error, a value that lost its __close), the remaining ones still run: on return the stack is down to h
 
 //@ func (*Runtime).metaGetS
 //@   external
